@@ -53,6 +53,9 @@ def realise(rng, X, L, dist_levels):
 
 
 def gen_trace(recipe):
+  if recipe.get('suite'):
+    import suite
+    return suite.regen(recipe, ('CallCalibrate',))
   rng = np.random.default_rng(recipe['seed'])
   name = recipe['est']
   est, tr, opts = gen.fitted(rng, name, d=recipe['d'])
@@ -246,6 +249,26 @@ def run(ctx):
       s['has_ties'] = len(set(ds)) < len(ds)
     return s
   verdicts, _ = core.judge(ctx, *SPEC, pairs, sig)
+  # calibrations performed by the repository's own tests (directly, or inside fit(calibration_params=...)): the stored
+  # threshold must be optimal for the criterion on the validation distances read back from the estimator
+  import suite
+  evs, summary = core.record_suite_calls(os.path.join(ctx.work, 'suite'), files=['test/test_pairs_classifiers.py'] if ctx.quick else ['test/'])
+  spairs = suite.traces_from(evs, ('CallCalibrate',), 150 if ctx.quick else 0, np.random.default_rng(ctx.seed), spec=SPEC)
+  if len(spairs) < 20:
+    raise core.MachineryError('only %d calibration traces recorded from the repository tests (%s)' % (len(spairs), summary))
+  core.judge(ctx, *SPEC, spairs, lambda r, t, c: {'estimator': r['est'], 'suite': True}, tag='suite')
+  for r, t in spairs:
+    ctx.note_case(('suite', r['test']))
+  ctx.extra['suite_traces'] = {'pytest_summary': summary, 'tests_validated': len(spairs),
+                               'calibrations_validated': sum(len(t['events']) for _, t in spairs),
+                               'strategies': sorted({e['strategy'] for _, t in spairs for e in t['events']})}
+
+  def suite_thr_moved(t):
+    e = t['events'][0]
+    e['thr'] = [-1, 0, [1]]          # "reject everything" on a set that has positive pairs: accuracy is not maximal
+    e['y'] = [1] * (len(e['y']) - 1) + [-1]
+  sgood = next(t for r, t in spairs if t['events'][0]['strategy'] == 'accuracy')
+  core.selftest_binding(ctx, *SPEC, sgood, suite_thr_moved, 'C16.accuracy_optimal', 'suite_threshold_moved')
   # refine violations: identify the failing events individually (a trace holds many cases)
   ncal = 0
   for recipe, tr in pairs:
